@@ -49,6 +49,7 @@ def v1(ctx, fx):
         ctx.ok("C03.V1", writer, "paired-insert", why)
     else:
         ctx.finding("C03.V1", writer, "paired-insert", "digest maps are not filled pairwise with the same key: " + why)
+    writer = fx.view(writer.name)
     fv = vals(writer)
     loops = [lp for lp in next_loops(writer) if any(is_field(peel(r), "input_disclosures") for (r, ad) in lp.sources())]
     if not loops:
@@ -60,12 +61,10 @@ def v1(ctx, fx):
         ctx.finding("C03.V1", writer, "loop", "the iteration over input_disclosures uses adaptors %s (some presented disclosures may be skipped)" % [ad for (_, ad) in srcs])
     is_elem = lambda x: item_path(x, lp.node) == []
     ninserts = 0
-    for b, t in writer.calls():
-        n = fv.call_node(b)
-        if t.get("name") != "insert" or not (recv_is_field(n, DECODED) or recv_is_field(n, RAW)):
-            continue
+    events = [(b, n, DECODED) for (b, n) in c07.map_insert_events(writer, DECODED)] + [(b, n, RAW) for (b, n) in c07.map_insert_events(writer, RAW)]
+    for (b, n, which) in sorted(events, key=lambda e: e[0]):
+        t = writer.term(b)
         ninserts += 1
-        which = DECODED if recv_is_field(n, DECODED) else RAW
         key, val = n.kids[1], n.kids[2]
         hs = [x for x in walk(key) if x.kind == "call" and (x.d["term"].get("resolved") or "") == "utils::base64_hash"]
         key_ok = bool(hs) and must(key, lambda x: x in hs) and all(must(h.kids[0], is_elem) for h in hs)
@@ -85,7 +84,19 @@ def v1(ctx, fx):
         for (bb, tt, ft, c) in bool_switches(writer):
             if c.kind == "call" and c.d["term"].get("name") == "contains_key" and recv_is_field(c, DECODED) and c07.same_key(c.kids[1], key):
                 good.append((bb, ft))
-        chk(ctx, "C03.V1", writer, t.get("line"), "dup:%s" % which, bool(good) and guarded(writer, b, good), "insert dominated by contains_key(digest)==false (a repeated disclosure is an Err)",
+        # Entry API on the decoded map with the same key: the Vacant edge is the 'not seen before' edge
+        for (sb, subj) in common.discr_switches(writer):
+            e = peel(subj)
+            if e.kind == "call" and e.d["term"].get("name") == "entry" and len(e.kids) == 2 and recv_is_field(e, DECODED) and c07.same_key(e.kids[1], key):
+                tsw = writer.term(sb)
+                vac = fx.variant_discr("std::collections::hash_map::Entry", "Vacant")
+                vac = 1 if vac is None else vac
+                for (v_, tgt) in tsw["targets"]:
+                    if v_ == vac:
+                        good.append((sb, tgt))
+                if vac not in [v_ for (v_, _) in tsw["targets"]]:
+                    good.append((sb, tsw["otherwise"]))
+        chk(ctx, "C03.V1", writer, t.get("line"), "dup:%s" % which, bool(good) and guarded(writer, b, good), "insert dominated by the digest-not-yet-present edge (contains_key==false / Entry::Vacant): a repeated disclosure is an Err",
             "a repeated disclosure silently overwrites the earlier entry (no contains_key check before the insert)")
     ctx.floor("C03.V1", "inserts into the digest maps", ninserts, 2)
 
@@ -104,6 +115,10 @@ def v2(ctx, fx, U):
             nm = t.get("name")
             if recv_is_field(n, DECODED):
                 if nm == "insert" or (nm in ("new", "default")):
+                    continue
+                if nm == "entry" and any(ev.entry is n for (_, ev) in c07.map_insert_events(fn, DECODED)):
+                    nuse += 1
+                    ctx.ok("C03.V2", fn, "keyed:entry", "keyed access through the Entry API (the vacant-slot insert is judged by C03.V1)", line=t.get("line"))
                     continue
                 nuse += 1
                 if nm in ITER_API:
